@@ -139,7 +139,7 @@ func run(p *Prop, tier string, seed int64, outDir, corpusDir string) {
 	lastOp, _ := os.Create(filepath.Join(outDir, "last-op.txt"))
 	slow := 0
 	handle := func(op string) {
-		if len(res.Violations) >= 25 && slow >= 25 {
+		if res.ViolationCount >= 25 && slow >= 25 {
 			return // enough failing inputs found, and they are slow (deadline based): stop early
 		}
 		res.Evaluations++
